@@ -118,6 +118,16 @@ def make_mask(spec, table_lookup=None):
     form, v = spec["form"], spec["values"]
     if form == "bool_array":
         return np.array([bool(x) for x in v], dtype=bool)
+    if form == "bool_strided":  # non-contiguous view a[::2]
+        return np.array([b for x in v for b in (bool(x), not bool(x))], dtype=bool)[::2]
+    if form == "bool_reversed":  # negative-stride view
+        return np.array([bool(x) for x in v][::-1], dtype=bool)[::-1]
+    if form == "bool_col":      # a column of a 2-D array
+        return np.array([[not bool(x), bool(x)] for x in v], dtype=bool).reshape(len(v), 2)[:, 1]
+    if form == "int32_array":
+        return np.array(v, dtype=np.int32)
+    if form == "int_strided":
+        return np.array([b for x in v for b in (int(x), 7)], dtype=np.int64)[::2]
     if form == "list":          # python list of bools
         return [bool(x) for x in v]
     if form == "tuple":
@@ -143,9 +153,11 @@ def mask_bools(spec, n_default):
     return [bool(x) for x in spec["values"]]
 
 
-NONBOOL_FORMS = ("list", "tuple", "int_list", "int_array", "int8_array", "uint8_array", "float_array")
+NONBOOL_FORMS = ("list", "tuple", "int_list", "int_array", "int8_array", "uint8_array", "float_array",
+                 "int32_array", "int_strided")
 FORM_KEY = {"list": "list", "tuple": "list", "int_list": "list", "int_array": "int-array",
-            "int8_array": "int-array", "uint8_array": "uint-array", "float_array": "float-array"}
+            "int8_array": "int-array", "uint8_array": "uint-array", "float_array": "float-array",
+            "int32_array": "int-array", "int_strided": "int-array"}
 
 # ----------------------------------------------------------------------------------
 # desc surgery
@@ -217,7 +229,16 @@ def build_kwargs(args, site_mask, sample_mask, calls):
     if args.get("contig_id") is not None:
         kw["contig_id"] = args["contig_id"]
     if args.get("individuals") is not None:
-        kw["individuals"] = list(args["individuals"])
+        import numpy as np
+        iv, iform = list(args["individuals"]), args.get("individuals_form", "list")
+        if iform == "int32":
+            kw["individuals"] = np.array(iv, dtype=np.int32)
+        elif iform == "int64_strided":
+            kw["individuals"] = np.array([b for x in iv for b in (x, -5)], dtype=np.int64)[::2]
+        elif iform == "tuple":
+            kw["individuals"] = tuple(iv)
+        else:
+            kw["individuals"] = iv
     if args.get("individual_names") is not None:
         kw["individual_names"] = list(args["individual_names"])
     tr = args.get("position_transform")
@@ -258,9 +279,16 @@ def run_vcf(desc, args, site_mask, sample_mask):
     kw = build_kwargs(args, site_mask, sample_mask, calls)
     try:
         text = ts.as_vcf(**kw)
-        return {"text": text, "calls": calls}
+        res = {"text": text, "calls": calls}
     except Exception as e:
-        return {"err": type(e).__name__, "msg": str(e)[:100], "calls": calls}
+        res = {"err": type(e).__name__, "msg": str(e)[:100], "calls": calls}
+    # the same call once more on the SAME tree sequence (after a success or after an error)
+    try:
+        again = ts.as_vcf(**build_kwargs(args, site_mask, sample_mask, []))
+        res["again_same"] = res.get("text") == again
+    except Exception as e:
+        res["again_same"] = res.get("err") == type(e).__name__
+    return res
 
 
 def table_facts(desc, iam):
@@ -530,6 +558,8 @@ def check_run(case, facts, run, exp, tag=""):
     if "build_err" in run:
         return [("harness-build" + tag, run["build_err"])]
     got = verdict_of(run)
+    if run.get("again_same") is False:
+        out.append(("second-call-differs" + tag, "repeating the call on the same tree sequence gives another result"))
     if exp["verdict"] == "nosamples":
         # a VCF without sample columns or a documented ValueError; anything else (the
         # IndexError of the pinned code) is the zero-samples finding
@@ -742,7 +772,7 @@ def expected_columns(desc, args):
 
 
 def random_mask_values(rng, n, form, p):
-    if form in ("bool_array", "list", "tuple"):
+    if form in ("bool_array", "list", "tuple", "bool_strided", "bool_reversed", "bool_col"):
         return [rng.random() < p for _ in range(n)]
     if form == "float_array":
         return [rng.choice([0.0, 1.0, 0.5]) if rng.random() < p else 0.0 for _ in range(n)]
@@ -791,11 +821,16 @@ def gen_case(rng, many_alleles=False):
     mode = rng.choice(["none", "none", "all", "all", "all_shuffled", "diploid", "subset",
                        "partial", "bad", "empty_table"])
     impose_layout(rng, desc, mode)
+    for nd in desc["nodes"]:          # application-defined flag bits must not matter
+        if rng.random() < 0.15:
+            nd[0] |= rng.choice([1 << 16, 1 << 19, 1 << 31])
     ns = len(desc["sites"])
     args = {}
     if rng.random() < (0.5 if mode == "none" else 0.04):
         args["ploidy"] = rng.choice([1, 1, 2, 2, 2, 3, 3, 4, 1, 2, 0, -1])
     args["individuals"] = pick_individuals_arg(rng, desc, mode)
+    if args["individuals"] is not None:
+        args["individuals_form"] = rng.choice(["list", "list", "int32", "int64_strided", "tuple"])
     if rng.random() < 0.3:
         args["contig_id"] = rng.choice(["chr2", "c x", "", "22"])
     args["position_transform"] = rng.choice([None, None, None, None, "legacy", "legacy", "legacy", "plus1", "plus1",
@@ -808,12 +843,14 @@ def gen_case(rng, many_alleles=False):
         n = nindiv if (nindiv is not None and rng.random() < 0.9) else rng.randrange(0, 4)
         args["individual_names"] = ["s%d%s" % (j, rng.choice(["", "_x", " y"])) for j in range(n)]
     if rng.random() < 0.6:
-        form = rng.choice(["bool_array", "bool_array", "bool_array", "list", "list", "int_list", "tuple",
-                           "int_array", "int_array", "int8_array", "uint8_array", "float_array"])
+        form = rng.choice(["bool_array", "bool_array", "bool_strided", "bool_reversed", "bool_col", "list", "list",
+                           "int_list", "tuple", "int_array", "int32_array", "int_strided", "int8_array",
+                           "uint8_array", "float_array"])
         n = ns if rng.random() < 0.93 else max(0, ns + rng.choice([-1, 1, 2]))
         args["site_mask"] = {"form": form, "values": random_mask_values(rng, n, form, rng.choice([0.3, 0.6, 1.0]))}
     if rng.random() < 0.5:
-        form = rng.choice(["bool_array", "list", "int_list", "int_array", "uint8_array", "callable", "callable"])
+        form = rng.choice(["bool_array", "bool_strided", "bool_col", "list", "int_list", "int_array", "int_strided",
+                           "uint8_array", "callable", "callable"])
         n = ncols if (ncols is not None and rng.random() < 0.93) else rng.randrange(0, 6)
         if form == "callable":
             rows = []
@@ -1013,11 +1050,11 @@ def mask_term(spec):
     if spec is None:
         return "MNone"
     form, v = spec["form"], spec["values"]
-    if form == "bool_array":
+    if form in ("bool_array", "bool_strided", "bool_reversed", "bool_col"):
         return "(MBoolArray %s)" % bl(v)
     if form in ("list", "tuple", "int_list"):
         return "(MPyList %s)" % bl(v)
-    if form in ("int_array", "int8_array"):
+    if form in ("int_array", "int8_array", "int32_array", "int_strided"):
         return "(MIntArray %s)" % zl(v)
     if form == "uint8_array":
         return "(MUIntArray 8 %s)" % zl([x % 256 for x in v])
@@ -1093,6 +1130,9 @@ def gen_mapping_case(rng):
     mode = rng.choice(["none", "none", "all", "all", "all_shuffled", "diploid", "subset", "partial", "bad",
                        "bad", "empty_table"])
     impose_layout(rng, desc, mode)
+    for nd in desc["nodes"]:
+        if rng.random() < 0.15:
+            nd[0] |= rng.choice([1 << 16, 1 << 19, 1 << 31])
     args = {}
     if rng.random() < (0.6 if mode == "none" else 0.15):
         args["ploidy"] = rng.choice([1, 2, 2, 3, 4, 5, 0, -1])
